@@ -29,7 +29,8 @@ const Rule = "cases = (a pool of tables: implementation, hash function, HashOpts
 	"up to 130 (thorough 3000) and next to those (must be rejected), thousands of operations over a small universe, keys 0 / -1 / MinInt / MaxInt / 2^k +- 1; " +
 	"pools of 2-5 tables that differ in implementation / hash function / options / value equality (eq, mod 8, the asymmetric <=) meeting in Equal, a table compared with itself; " +
 	"iterator values: sequences returned by All() kept, two traversals of one table advanced alternately, nested loops over one table and over two, loops broken off half-way, a " +
-	"sequence run twice, tables read and OTHER tables changed meanwhile (a change of a table ends its own traversals: that is outside the property); " +
+	"sequence run twice, tables read and OTHER tables changed meanwhile, sequences and not-yet-started traversals obtained BEFORE their table grew / shrank / was emptied and run " +
+	"AFTERWARDS (D29: they must list the table as it is when they are run; only a traversal that is half-way when its own table changes is outside the property and ends as `invalid`); " +
 	"every mutating op (put, delete, deleteall, bulk putn / deln) is compared with the Model on m, n, u, p and a " +
 	"digest of all occupied slots; every case is also run on the Model (no oracle-only cases); non-trivial = the history had a probe/chain walk of length >= 3 or at least one resize; " +
 	"distinct = distinct (header, op list)"
